@@ -74,12 +74,16 @@ def main():
         sh("git -C /repo worktree remove --force %s" % wt, "/")
     dst = os.path.join(V, "seeded", "%s-%s" % (pid, label))
     os.makedirs(dst, exist_ok=True)
-    for f in os.listdir(src):
+    for f in (os.listdir(src) if os.path.abspath(src) != os.path.abspath(dst) else []):
         s = os.path.join(src, f)
         if os.path.isdir(s):
             shutil.copytree(s, os.path.join(dst, f), dirs_exist_ok=True)
         else:
             shutil.copy(s, dst)
+    meta.setdefault("verification_history", [])
+    if "verification" in meta:
+        old = meta["verification"]
+        meta["verification_history"].append({"caught": old.get("caught"), "checks": {c: v.get("lines", [])[-1:] for c, v in old.get("checks", {}).items()}})
     meta["verification"] = res
     json.dump(meta, open(os.path.join(dst, "meta.json"), "w"), indent=1)
     print(pid, label, "confirmed=%s caught=%s" % (res.get("confirmed"), res.get("caught")),
